@@ -41,6 +41,11 @@ var c16defects = []c16defect{
 	{"ms-value-call", "services", func(c *Cfg) {
 		c.Services = append(c.Services, Service{Name: "svsOne", Type: P("Thing"), Calls: []Call{{Method: "Set", Args: []any{1, "@lostValue"}}}})
 	}, `"lostValue"`},
+	{"cycle-next-to-missing-in-one-value", "cycle", func(c *Cfg) {
+		c.Params = append(c.Params, Param{"pxDsn", "%aaGoneScheme%://%pxHost%/%zzGonePath%"}, Param{"pxHost", "%pxDsn%"})
+		c.Services = append(c.Services, Service{Name: "sxOne", Constructor: P("NewT"), Args: []any{"@aaLostFirst", "@sxTwo", "@zzLostLast"}},
+			Service{Name: "sxTwo", Constructor: P("NewT"), Args: []any{"@sxOne"}})
+	}, "%pxDsn%"},
 	{"param-cycle", "cycle", func(c *Cfg) {
 		c.Params = append(c.Params, Param{"pcOne", "%pcTwo%"}, Param{"pcTwo", "x%pcOne%"})
 	}, "%pcOne%"},
@@ -81,6 +86,8 @@ func c16classes(d c16defect) []string {
 		return []string{"scope", "services", "params"}
 	case "ms-shared-service":
 		return []string{"services"}
+	case "cycle-next-to-missing-in-one-value":
+		return []string{"cycle", "params", "services"}
 	}
 	return []string{d.class}
 }
@@ -112,7 +119,7 @@ func init() {
 	Register(&Check{
 		ID:    "C16",
 		Level: "exploration",
-		Rule: "all subsets of size <= k (k=5 quick, all subsets thorough) of 16 injected defects {references to declared services followed by white space (compile stage), missing parameter in a field of a value service, missing service in a call of a type-only service, malformed references made of name characters (compile stage), missing param x3 positions, missing service x3 positions, param cycle, service cycle, scope violation, scope violation on a service that also has missing dependencies, grammar violation} x the 4 combinations of --ignore-missing-params / --ignore-missing-services, each with and without --stub, with --quiet / -q, and in twelve flag spellings; eight sparse configurations (whole sections absent); " +
+		Rule: "all subsets of size <= k (k=5 quick, all subsets thorough) of 17 injected defects {parameter and service cycles whose members name missing things before the reference that closes the cycle, references to declared services followed by white space (compile stage), missing parameter in a field of a value service, missing service in a call of a type-only service, malformed references made of name characters (compile stage), missing param x3 positions, missing service x3 positions, param cycle, service cycle, scope violation, scope violation on a service that also has missing dependencies, grammar violation} x the 4 combinations of --ignore-missing-params / --ignore-missing-services, each with and without --stub, with --quiet / -q, and in twelve flag spellings; eight sparse configurations (whole sections absent); " +
 			"non-trivial = at least one defect and at least one flag set; distinct = distinct (defect set, flags)",
 		Assumptions: []string{
 			"diagnostic classes are told apart by the rule prefix the tool prints; lines are compared as ordered lists between flag combinations",
